@@ -257,3 +257,9 @@ func short(s string, n int) string {
 func Scratch(c *Ctx) *R {
 	return &R{c: c, rule: &Rule{ID: "scratch"}, seen: map[string]int{}, Funcs: map[string]bool{}}
 }
+
+// NewScratchR returns a collector that is not attached to a registered rule
+// (used to evaluate a primitive once and re-report its outcome).
+func NewScratchR(c *Ctx, id string) *R {
+	return &R{c: c, rule: &Rule{ID: id}, seen: map[string]int{}, Funcs: map[string]bool{}}
+}
